@@ -8,9 +8,11 @@
      C16_local_full   one peer, the whole fragment            -- a Definition;
    proved here:
      C16_local_partial  one peer, STRAIGHT-LINE scripts (SeqLocal.linear: call with literal target / service /
-                      function and literal or scalar arguments, seq, xor, match, mismatch, fail, null, never):
+                      function and literal or scalar arguments, ap of a literal or a scalar, seq, xor, match, mismatch, fail,
+                      null, never):
                       the executor model (Exec.exec through RunExec.run1, with the real trace handler model)
-                      iterated on the peer -- run, hand every requested answer back, run again -- reaches
+                      -- and likewise the complete executor ExecStreams.run2 -- iterated on the peer (run, hand
+                      every requested answer back, run again) reaches
                       quiescence and has requested exactly the calls of the sequential reading, one per round,
                       in its order, with its argument values.  The key lemma (SeqLocalProofs.exec_lin): one run
                       whose previous data holds k-1 executed calls and the pending k-th, with the k-th answer
@@ -75,10 +77,14 @@ Definition ex_svc_full (p s f : string) (args : list json) : service_answer :=
 Definition ex_linear : instr :=
   ISeq (ex_call "A" "f" [] (OutScalar (ex_var "x")))
        (IXor (ex_call "A" "fail" [VScalar (ex_var "x")] OutNone)
-             (ex_call "A" "h" [VScalar (ex_var "x")] (OutScalar (ex_var "y")))).
+             (ISeq (IAp "" (AScalar (ex_var "x")) (ApScalar (ex_var "z")))
+                   (ex_call "A" "h" [VScalar (ex_var "z")] (OutScalar (ex_var "y"))))).
 Example C16_local_example :
   linear "A" ex_linear = true /\
   local_rounds ex_svc_full 0 0 4 20 "A" ex_linear empty_data [] =
+  Some (map (fun c => [c])
+            (calls_of (reading ex_svc_full 0 0 everything_known "A" 20 ex_linear))) /\
+  local_rounds2 ex_svc_full 0 0 4 20 "A" ex_linear empty_data [] =
   Some (map (fun c => [c])
             (calls_of (reading ex_svc_full 0 0 everything_known "A" 20 ex_linear))) /\
   length (calls_of (reading ex_svc_full 0 0 everything_known "A" 20 ex_linear)) = 3%nat.
